@@ -4,8 +4,8 @@ import Proofs.C20Lemmas
 namespace TlsAuth
 
 /-- a `WrapTLS` that leaves the dialer's config alone leaves the dialer's state alone -/
-theorem dialDefault_readonly (wrap : Wrap) (hro : ∀ t a, (wrap t a).1 = t) (trust : Signer → Bool)
-    (tls : Option OutCfg) (d : DialTry) : (dialDefault wrap trust tls d).1 = tls := by
+theorem dialDefault_readonly (wrap : Wrap) (hro : ∀ t a, (wrap t a).1 = t) (trust : Signer → Bool) (cb : Bool)
+    (tls : Option OutCfg) (d : DialTry) : (dialDefault wrap trust cb tls d).1 = tls := by
   unfold dialDefault
   cases d.host.ip with
   | none => rfl
@@ -20,10 +20,10 @@ theorem dialDefault_readonly (wrap : Wrap) (hro : ∀ t a, (wrap t a).1 = t) (tr
         | some t => simp [hro]
 
 /-- … and then every dial of a sequence is a function of the configuration and that dial alone -/
-theorem dialSeq_readonly (wrap : Wrap) (hro : ∀ t a, (wrap t a).1 = t) (trust : Signer → Bool)
+theorem dialSeq_readonly (wrap : Wrap) (hro : ∀ t a, (wrap t a).1 = t) (trust : Signer → Bool) (cb : Bool)
     (tls : Option OutCfg) (ds : List DialTry) :
-    dialSeq wrap trust tls ds = ds.map (fun d => (dialDefault wrap trust tls d).2) ∧
-    dialFinal wrap trust tls ds = tls := by
+    dialSeq wrap trust cb tls ds = ds.map (fun d => (dialDefault wrap trust cb tls d).2) ∧
+    dialFinal wrap trust cb tls ds = tls := by
   induction ds with
   | nil => exact ⟨rfl, rfl⟩
   | cons d ds ih =>
